@@ -169,4 +169,4 @@ class Corpus:
 
 
 def default_root():
-    return os.environ.get('WOWM_ROOT', '/repo/wow_message_parser/wowm')
+    return os.environ.get('WOWM_ROOT', os.path.join(os.environ.get('WOWM_REPO', '/repo'), 'wow_message_parser', 'wowm'))
